@@ -91,8 +91,9 @@ def build_mdp(spec, dist_kind="dict", cls=None, count_calls=None):
     return mdp, v
 
 
-def build_tabular_policy(spec, polspec, mdp, view):
-    """TabularPolicy over mdp.state_list x mdp.action_list from a policy spec."""
+def build_tabular_policy(spec, polspec, mdp, view, dtype=None):
+    """TabularPolicy over mdp.state_list x mdp.action_list from a policy spec. `dtype` ("int" / "bool" / "float32"):
+    the table a caller may well write by hand - applied only when every entry is exactly representable in it."""
     import numpy as np
     from msdm.core.mdp import TabularPolicy
     sl, al = list(mdp.state_list), list(mdp.action_list)
@@ -103,6 +104,10 @@ def build_tabular_policy(spec, polspec, mdp, view):
         tot = sum(w for _, w in row)
         for a, w in row:
             data[si, al.index(view.A[a])] = w / tot
+    if dtype in ("int", "bool", "float32"):
+        cast = data.astype({"int": np.int64, "bool": np.bool_, "float32": np.float32}[dtype])
+        if (cast.astype(float) == data).all():
+            data = cast
     return TabularPolicy.from_state_action_lists(state_list=sl, action_list=al, data=data)
 
 
